@@ -150,3 +150,31 @@ package results
 //@   props C08
 //@   ensures[fresh-record] result != nil
 //@ end
+
+// ---- C09: reading the table of duplicate global definitions ----
+// The list kept per name is the order-dependent chain of "improving" definitions; only its LAST element (the best
+// ranked one, by the order proved for JudgeShouldInsertGlobalInfo) is the same for every visiting order of the files.
+// The lookup therefore answers with the last recorded definition of the asked protocol prefix and never with a
+// filtered view of the chain (the gFlag argument does not select among the recorded definitions).
+//@ func (*AnalysisThird).FindThirdGlobalGInfo
+//@   props C09
+//@   ensures[answer-is-the-last-recorded-definition-of-the-prefix] varInfoList != nil ==>
+//@        forall(k, 0, len(varInfoList.VarVec), streq(varInfoList.VarVec[k].ExtraGlobal.StrProPre, strProPre)
+//@            && forall(j, k + 1, len(varInfoList.VarVec), !streq(varInfoList.VarVec[j].ExtraGlobal.StrProPre, strProPre))
+//@            ==> result0 && result1 == varInfoList.VarVec[k])
+//@   loop 0 invariant i >= -1 && i < len(varInfoList.VarVec) && varInfoList != nil
+//@        && forall(j, i + 1, len(varInfoList.VarVec), !streq(varInfoList.VarVec[j].ExtraGlobal.StrProPre, strProPre))
+//@ end
+
+// ---- C19: the outline of a file's protocol-prefix functions ----
+// every function declared on a protocol prefix becomes a child of the prefix's outline entry: the entry of its prefix
+// exists afterwards and has exactly one child more than before (the table holds entry VALUES - the grown entry has to
+// be stored back)
+//@ func (*FileResult).FindAllSymbol
+//@   props C19
+//@   loop for: step [protocol-function-becomes-a-child-of-its-prefix-entry] has(protocolSymbols, strProPre)
+//@        && len(protocolSymbols[strProPre].Children) == (prev(has(protocolSymbols, strProPre)) ? prev(len(protocolSymbols[strProPre].Children)) : 0) + 1
+//@   loop for: exits-early-only-if [last-declaration-of-a-name-is-entered-too] has(protocolSymbols, strProPre) && len(protocolSymbols[strProPre].Children) >= 1
+//@   loop range:f.ProtocolMaps exits-early-only-if [every-protocol-name-is-visited] false
+//@   loop range:protocolSymbols exits-early-only-if [every-prefix-entry-is-returned] false
+//@ end
